@@ -14,7 +14,7 @@ import ast
 from ..engine import rule, run_property
 from ..model import Undecided
 from ..cfg import dotted, call_name, is_call, simple_name, unparse, const_value, contains, enclosing
-from ..flow import Defs, depends
+from ..flow import Canon, Defs, depends
 from ..axis import axis_reports
 from ..util import keyword, returns_of, calls_in, inside, order_key
 
@@ -174,31 +174,44 @@ def c01c(ctx):
         if 'featureinfo' in o.construct or 'get_info' in o.construct:
             (ctx.ok if o.status == 'ok' else ctx.bad)('%s:%s' % (o.rule, o.construct), o.msg, o.where)
     fn = ctx.fn('mapproxy/client/wms.py:WMSInfoClient._get_transformed_query')
-    defs = Defs(fn.node)
+    # closed forms of the upstream query's arguments (independent of how the computation is split into locals)
+    cf = Canon(fn)
+    iq = [x for x in fn.walk() if is_call(x, 'InfoQuery')]
+    kw = {k.arg: cf.expr(k.value) for k in iq[0].keywords} if iq else {}
+    qp = fn.params[1] if len(fn.params) > 1 else 'query'
 
-    def d(name):
-        ds = defs.of(name)
-        return ds[0][0] if ds else None
-    rc = d('req_coord')
-    ok = is_call(rc, 'make_lin_transf') is False and isinstance(rc, ast.Call) and is_call(rc.func, 'make_lin_transf') and \
-        unparse(rc.args[0]) == 'query.pos' and unparse(rc.func.args[1]) == 'req_bbox' and \
-        unparse(rc.func.args[0]).replace(' ', '') == '(0,0,query.size[0],query.size[1])'
+    def T(e):
+        return unparse(e).replace(' ', '') if e is not None else None
+
+    def strip_round(e):
+        while isinstance(e, ast.Call) and call_name(e) in ('int', 'round') and len(e.args) == 1:
+            e = e.args[0]
+        return e
+    B = kw.get('bbox')
+    S = kw.get('srs')
+    pos = kw.get('pos')
+    size = kw.get('size')
+    comps = [strip_round(e) for e in pos.elts] if isinstance(pos, ast.Tuple) and len(pos.elts) == 2 else []
+    P = comps[0].value if len(comps) == 2 and all(isinstance(c, ast.Subscript) for c in comps) and \
+        [const_value(c.slice) for c in comps] == [0, 1] and T(comps[0].value) == T(comps[1].value) else None
+    lin2 = P.func if isinstance(P, ast.Call) and is_call(P.func, 'make_lin_transf') and len(P.func.args) == 2 and len(P.args) == 1 else None
+    C = P.args[0] if lin2 is not None else None
+    RC = C.args[1] if is_call(C, 'transform_to') and len(C.args) == 2 else None
+    lin1 = RC.func if isinstance(RC, ast.Call) and is_call(RC.func, 'make_lin_transf') and len(RC.func.args) == 2 and len(RC.args) == 1 else None
+    ok = lin1 is not None and T(RC.args[0]) == qp + '.pos' and T(lin1.args[1]) == qp + '.bbox' and \
+        T(lin1.args[0]) == '(0,0,%s.size[0],%s.size[1])' % (qp, qp)
     ctx.check(ok, 'WMSInfoClient._get_transformed_query:click-to-ground', 'the click position is mapped from the pixel rectangle (0, 0, w, h) to the request bbox', fn,
               fail='the click coordinate is not computed as make_lin_transf((0, 0, size[0], size[1]), req_bbox)(query.pos)')
-    ic = d('info_coord')
-    ib = d('info_bbox')
-    ok = is_call(ic, 'req_srs.transform_to') and unparse(ic.args[0]) == 'info_srs' and unparse(ic.args[1]) == 'req_coord' and \
-        is_call(ib, 'req_srs.transform_bbox_to') and unparse(ib.args[0]) == 'info_srs' and unparse(ib.args[1]) == 'req_bbox'
+    ok = is_call(B, 'transform_bbox_to') and is_call(C, 'transform_to') and len(B.args) == 2 and T(B.func.value) == T(C.func.value) == qp + '.srs' and \
+        T(B.args[0]) == T(C.args[0]) == T(S) and T(B.args[1]) == qp + '.bbox' and is_call(S, 'best_srs')
     ctx.check(ok, 'WMSInfoClient._get_transformed_query:same-srs-pair', 'click coordinate and bbox are transformed with the same req_srs -> info_srs pair', fn,
               fail='the click coordinate is not transformed (or with another SRS pair than the bbox): the upstream is asked about another ground point')
-    ips = [v for v, sel in defs.of('info_pos')]
-    first = ips[0] if ips else None
-    ok = first is not None and isinstance(first, ast.Call) and is_call(first.func, 'make_lin_transf') and unparse(first.args[0]) == 'info_coord' and \
-        'info_bbox' in unparse(first.func.args[0]) and unparse(first.func.args[1]).replace(' ', '') == '(0,0,info_size[0],info_size[1])'
+    ok = lin2 is not None and T(lin2.args[0]) == T(B) and isinstance(size, ast.Tuple) and len(size.elts) == 2 and \
+        T(lin2.args[1]) == '(0,0,%s,%s)' % (T(size.elts[0]), T(size.elts[1]))
     ctx.check(ok, 'WMSInfoClient._get_transformed_query:ground-to-pixel', 'the new pixel position maps the transformed coordinate from the transformed bbox to (0, 0, w, h)', fn,
               fail='the new pixel position is not make_lin_transf(info_bbox, (0, 0, info_size[0], info_size[1]))(info_coord)')
-    iq = [x for x in fn.walk() if is_call(x, 'InfoQuery')]
-    ok = bool(iq) and {k.arg: unparse(k.value) for k in iq[0].keywords}.items() >= {'bbox': 'info_bbox', 'size': 'info_size', 'srs': 'info_srs', 'pos': 'info_pos'}.items()
+    ok = bool(iq) and all(kw.get(k) is not None for k in ('bbox', 'size', 'srs', 'pos')) and P is not None and \
+        all(n.id == qp or n.id in ('self', 'make_lin_transf', 'int', 'round') for k in ('bbox', 'size', 'srs', 'pos') for n in ast.walk(kw[k]) if isinstance(n, ast.Name))
     ctx.check(ok, 'WMSInfoClient._get_transformed_query:query', 'the upstream query carries the transformed bbox, size, srs and position', fn)
     gi = ctx.fn('mapproxy/client/wms.py:WMSInfoClient.get_info')
     g = gi.cfg
